@@ -8,7 +8,7 @@
   metapage contents at offset 24 of block 0 when block 0 is flagged as the metapage (btree, hash, gin), and a trailing
   partial block.  Block 0 may be any page of the method.  `Spec.Index.fileView` is what a correct tool reports.
 
-  Model side (Model/Index.lean): pgdump/index.go after fixes/index/01…07 (the code before them: Model/IndexOrig.lean;
+  Model side (Model/Index.lean): pgdump/index.go after fixes/index/01…09 (the code before them: Model/IndexOrig.lean;
   its failures on concrete pages: Proofs/IndexDefects.lean).
 
   `code am` is the tool's enum value of an access method (1 … 6); `C18_type_names` ties the numbering to PostgreSQL's names.
@@ -31,8 +31,10 @@ theorem C18_classify (f : File) (h : f.WF) :
 
 /-- Pages: the report has one record per page, in file order; read as a `PageView` (Go `int` fields are non-negative) record
 `i` equals the Spec's view of page `i`: page number, flag word, meta/leaf/root/deleted bits, level (hash: bucket number of a
-bucket page), previous/next (btree, hash) or right link (gist, gin), item count ((pd_lower − 24)/4; GIN: maxoff), free space
-(pd_upper − pd_lower), LSN = xlogid·2^32 + xrecoff and its `%X/%X` text; every record carries the file's access method. -/
+bucket page), previous/next (btree, hash) or right link (gist, gin), item count (`Spec.Index.itemCountOf`: the number of line
+pointers (pd_lower − 24)/4 on pages that have a line pointer array; 0 on metapages, hash bitmap pages and BRIN range-map pages;
+`maxoff` on GIN posting-tree pages), free space (pd_upper − pd_lower), LSN = xlogid·2^32 + xrecoff and its `%X/%X` text; every
+record carries the file's access method. -/
 theorem C18_pages (f : File) (h : f.WF) :
     ∃ r, parseIndexFile (encFile f) = .ok (some r) ∧ r.pages.map (viewOf f.am) = (fileView f).pages ∧
       ∀ pi ∈ r.pages, pi.indexType = code f.am ∧ pi.typeString = f.am.name ∧ 0 ≤ pi.itemCount ∧ 0 ≤ pi.freeSpace := by
@@ -45,9 +47,11 @@ theorem C18_pages (f : File) (h : f.WF) :
   · rw [← ha]; cases hp' : p.op <;> simp [expectPage, hp']
   · rw [← ha, ← typeString_code]; cases hp' : p.op <;> simp [expectPage, hp']
 
-/-- Flag names (interpretation 3 of DESIGN.md section 5): for every page, every name in the reported list is PostgreSQL's name
-(without the per-method macro prefix / `_PAGE` suffix) of a bit that is set in the page's flag word, and every set bit the tool
-has a name for at all is in the list.  Bits without a name in the tool stay silent. -/
+/-- Flag names: for every page, a name is in the reported list EXACTLY when it is PostgreSQL's name (`Spec.Index.pgFlagNames`:
+btpo_flags BTP_*, hasho_flag LH_* including the four state bits, GiST F_*, GIN_*, SPGIST_*, BRIN_EVACUATE_PAGE; printed without the
+per-method macro prefix and, for the four hash page-type bits, without `_PAGE`) of a bit that is set in the page's flag word.
+No bit PostgreSQL defines stays silent, no name is printed for a clear or undefined bit.  (The order of the list is not part of
+the statement — nor of the property.) -/
 theorem C18_flag_names (f : File) (h : f.WF) :
     ∃ r, parseIndexFile (encFile f) = .ok (some r) ∧ r.pages.length = f.pages.length ∧
       ∀ x ∈ r.pages.zip f.pages, NamesOK f.am x.2.op.flags x.1.flagStrings := by
@@ -62,6 +66,11 @@ theorem C18_flag_names (f : File) (h : f.WF) :
 is a single bit of the 16-bit flag word and the name is PostgreSQL's for that bit of that access method. -/
 theorem C18_name_table : ∀ am ∈ AM.all, ∀ e ∈ flagTable (code am),
     ∃ k ∈ List.range 16, e.1 = 2 ^ k ∧ shortFlagName am k = some e.2 := names_table_sound
+
+/-- … and the table is complete with respect to PostgreSQL's: every flag bit PostgreSQL defines for an access method
+(`Spec.Index.pgFlagNames` — 9 B-tree, 8 hash, 5 GiST, 8 GIN, 4 SP-GiST bits, 1 BRIN bit) has its (mask, name) entry. -/
+theorem C18_name_table_complete : ∀ am ∈ AM.all, ∀ e ∈ pgFlagNames am,
+    (2 ^ e.1, shortName am e.2) ∈ flagTable (code am) := names_table_complete
 
 /-- Metapages: the reported metapage equals the stored one — btree (magic, version, root, level, fastroot, fastlevel), hash
 (magic, version, maxbucket and maxbucket+1 buckets, highmask, lowmask, ffactor, ntuples as IEEE bits), gin (version, pending
@@ -93,15 +102,31 @@ theorem C18_no_confusion_depends (a b : Bytes) (ha : a.length = 8192) (hb : b.le
     detectIndexType a = detectIndexType b := by
   rw [detect_eq, detect_eq, detectP_fn a ha hs, detectP_fn b hb (e1 ▸ hs), e1, e2, e3]
 
-/-- No confusion, part 2 — the decision is the Spec's decision: on ANY 8192-byte page whose pd_special is 8176 or 8184,
-whenever the Spec's decision procedure `classify` (a function of pd_special, the last 16 bytes and the first meta word: page
-ids 0xFF80/0xFF81 and B-tree cycle ids ≤ 0xFF7F behind a 16-byte special space, 0xFF82, the BRIN page types and the eight GIN
-flag bits behind an 8-byte one) names an access method, detectIndexType returns that method.  All 2^128 trailers, not sampled. -/
+/-- No confusion, part 2 — ONE direction only: on ANY 8192-byte page whose pd_special is 8176 or 8184, IF the Spec's decision
+procedure `classify` (a function of pd_special, the last 16 bytes and the first meta word: page ids 0xFF80/0xFF81 and B-tree
+cycle ids ≤ 0xFF7F behind a 16-byte special space, 0xFF82, the BRIN page types and the eight GIN flag bits behind an 8-byte
+one) names an access method, THEN detectIndexType returns that method.  This covers every trailer that carries the signature of
+one of PostgreSQL's methods (exhaustively, not sampled), which is what the property quantifies over.  It says NOTHING about
+trailers on which `classify` is `none` (pages of no PostgreSQL index): there the tool may still name a method
+(`C18_no_confusion_converse_fails`), so "the tool agrees with the Spec on every possible trailer" is NOT a theorem. -/
 theorem C18_no_confusion (page : Bytes) (hl : page.length = 8192)
     (hs : rd 2 (page.drop 16) = 8176 ∨ rd 2 (page.drop 16) = 8184) (am : AM)
     (hc : classify (rd 2 (page.drop 16)) (page.drop 8176) (rd 4 (page.drop 24)) = some am) :
     detectIndexType page = .ok (code am) := by
   rw [detect_eq, detectP_fn page hl hs, detectFn_classify _ _ _ _ hc]
+
+/-- The converse of part 2 does not hold, and is not claimed: there are trailers that no PostgreSQL index page has (`classify`
+= none) on which the tool nevertheless names a method — an 8-byte special space whose last word 0x0108 has an undefined GIN
+bit, and a 16-byte special space ending in the SP-GiST page id 0xFF82 (the latter pinned by TestDetectIndexType). -/
+theorem C18_no_confusion_converse_fails :
+    (∃ page : Bytes, page.length = 8192 ∧ rd 2 (page.drop 16) = 8184 ∧
+      classify (rd 2 (page.drop 16)) (page.drop 8176) (rd 4 (page.drop 24)) = none ∧
+      (match detectIndexType page with | .ok t => t | .error _ => 0) = 4) ∧
+    (∃ page : Bytes, page.length = 8192 ∧ rd 2 (page.drop 16) = 8176 ∧
+      classify (rd 2 (page.drop 16)) (page.drop 8176) (rd 4 (page.drop 24)) = none ∧
+      (match detectIndexType page with | .ok t => t | .error _ => 0) = 5) := by
+  refine ⟨⟨zeros 16 ++ le 2 8184 ++ zeros 8172 ++ le 2 0x0108, ?_⟩, ⟨zeros 16 ++ le 2 8176 ++ zeros 8172 ++ le 2 0xFF82, ?_⟩⟩ <;>
+    decide +kernel
 
 /-- No confusion, part 3 (Spec side) — `classify` is right about PostgreSQL's pages: it names the access method of every
 well-formed page of every method (a B-tree page flagged BTP_META carrying BTREE_MAGIC).  Being a function, it thereby shows
@@ -121,7 +146,7 @@ example :
     let p1 : Page := { xlogid := 1, xrecoff := 0x2000, checksum := 0, pdflags := 0, lower := 36, upper := 8000, psv := 8196, prune := 0,
                        body := zeros 8152, op := .btree 0 0 0 3 0xFF7F }
     let f : File := { am := .btree, pages := [p0, p1], metaPage := some m, tail := [1, 2, 3] }
-    f.WF ∧ (fileView f).pages.length = 2 ∧ (fileView f).rootPage = 1 ∧ ((fileView f).pages.map (·.itemCount)) = [12, 3] := by
+    f.WF ∧ (fileView f).pages.length = 2 ∧ (fileView f).rootPage = 1 ∧ ((fileView f).pages.map (·.itemCount)) = [0, 3] := by
   decide +kernel
 
 /-- a GIN file whose block 0 is an entry-tree leaf page (no metapage) and a BRIN revmap page are well-formed too -/
@@ -133,6 +158,16 @@ example :
     (File.WF { am := .brin, pages := [b, b], metaPage := none, tail := [] }) ∧ MagicOK g := by
   refine ⟨by decide +kernel, by decide +kernel, ?_⟩
   exact magicOK_of_not_btree _ (by decide)
+
+/-- item counts from PostgreSQL's side: a GIN entry-tree leaf page with three line pointers and maxoff 0 holds 3 items; a GIN
+posting-tree page with maxoff 7 holds 7 (its pd_lower does not count); a GIN metapage, a hash bitmap page and a BRIN range-map
+page hold none -/
+example :
+    let g : Page := { xlogid := 0, xrecoff := 8, checksum := 0, pdflags := 0, lower := 36, upper := 8184, psv := 8196, prune := 0,
+                      body := zeros 8160, op := .gin 0xFFFFFFFF 0 2 }
+    itemCountOf g = 3 ∧ itemCountOf { g with op := .gin 5 7 1 } = 7 ∧ itemCountOf { g with op := .gin 5 7 8 } = 0 ∧
+    itemCountOf { g with op := .hash 0 0 0 4 } = 0 ∧ itemCountOf { g with op := .brin 0 0 0 0xF092 } = 0 ∧
+    itemCountOf { g with op := .brin 0 0 0 0xF093 } = 3 := by decide
 
 /-- the hypotheses of `C18_no_confusion` are satisfiable by trailers of every method: the Spec's decision on six trailers -/
 example :
